@@ -28,6 +28,8 @@ def main(run):
               big=False, coverage=not quick)
     rc.l2(run, ['mixed', 'shared', 'plain'] if quick else ['plain', 'same', 'shared', 'indep', 'mixed'],
           num=12 if quick else 150, depth=45, seed=run.seed + 1, kinds=('missing-chunk', 'missing-snapshot', 'command-failed'))
+    rc.l2_interleaved(run, ['shared', 'mixed'] if quick else ['plain', 'same', 'shared', 'indep', 'mixed'], 6 if quick else 80, 40, run.seed + 21,
+                      kinds=('missing-chunk', 'missing-snapshot', 'command-failed'))
     traces = rc.histories(run, rc.ALL_GRAPHS, range(run.seed * 100, run.seed * 100 + (3 if quick else 40)), 14 if quick else 30, post=restore_all)
     traces += rc.histories(run, ['shared', 'mixed'], range(run.seed * 100 + 50, run.seed * 100 + (52 if quick else 70)), 12 if quick else 25,
                            flavour='async', concurrent=2, post=restore_all)
